@@ -184,8 +184,9 @@ def geometry_relations(P, n_sc, g):
     area = 0
     wp = 0
     for i in range(3):
-        area = area + g['params']['area'][i] * int(n_sc[i])
-        wp = wp + g['params']['wp'][i] * int(n_sc[i])
+        k = n_sc[i] if isinstance(n_sc[i], Sym) else int(n_sc[i])
+        area = area + g['params']['area'][i] * k
+        wp = wp + g['params']['wp'][i] * k
         rel[f'params.de.{i}'] = 4 * g['params']['area'][i] / g['params']['wp'][i]
     rel['bundle.area'] = area
     rel['bundle.wp'] = wp
@@ -255,7 +256,13 @@ def geometry_contract_stub(S, g, P, n_sc):
                 for sub in ('area', 'wp', 'de', 'total area', 'total de'):
                     if sub in g[key] and not np.all(np.asarray(g[key][sub], dtype=float) > 0):
                         raise core.Reject(f'validity precondition {key}.{sub} > 0 false at sample')
+        for key, val in geometry_relations(P, n_sc, g).items():
+            S.eq(f'callee.calculate_geometry.{key}', geometry_get(g, key), val)
         return g
+    # the facts handed to the caller are obligations on the real callee result in
+    # every scenario that uses the stub (callee checked against its contract)
+    for key, val in geometry_relations(P, n_sc, g).items():
+        S.eq(f'callee.calculate_geometry.{key}', geometry_get(g, key), val)
     # L[6][5] is L[5][6] etc. are shared objects: unshare lists so that entries can be set
     if isinstance(g['L'][5][6], list):
         g['L'][6][5] = list(g['L'][5][6])
